@@ -7,7 +7,7 @@
   Every theorem is for ALL meshes / ALL parameter values and every payload type `α`.
 -/
 import PolyVerif.Lemmas.MeshWF
-import PolyVerif.Lemmas.MeshCorners
+import PolyVerif.Lemmas.MeshWF3
 import PolyVerif.Lemmas.PrimIdx
 
 namespace PolyVerif.C02
@@ -53,20 +53,26 @@ theorem hemisphere_wf {rows cols : Nat} (hr : 2 ≤ rows) (hc : 3 ≤ cols) {m :
     (h : IsPrim m (uvVerts rows cols) (hemisphereTris rows cols)) : WF m :=
   prim_wf h (hemisphereTris_lt hr hc) (hemisphereTris_len rows cols)
 
-/-- `primitives.Circle{Sides}.ToMesh()` for `Sides ≥ 1` -/
-theorem circle_wf {sides : Nat} (hs : 1 ≤ sides) {m : MeshVal α}
+/-- `primitives.Circle{Sides}.ToMesh()` for every accepted `Sides ≥ 3` -/
+theorem circle_wf {sides : Nat} (hs : 3 ≤ sides) {m : MeshVal α}
     (h : IsPrim m (circleVerts sides) (circleTris sides)) : WF m :=
-  prim_wf h (circleTris_lt hs) (circleTris_len sides)
+  prim_wf h (circleTris_lt (by omega)) (circleTris_len sides)
 
 /-- `primitives.Cone{Sides}.ToMesh()` for every accepted `Sides ≥ 3` -/
 theorem cone_wf {sides : Nat} (hs : 3 ≤ sides) {m : MeshVal α}
     (h : IsPrim m (coneVerts sides) (coneTris sides)) : WF m :=
   prim_wf h (coneTris_lt hs) (coneTris_len sides)
 
-/-- `primitives.Cylinder{Sides, NoTop, NoBottom}.ToMesh()` for `Sides ≥ 1`, all four cap choices -/
-theorem cylinder_wf {sides : Nat} (hs : 1 ≤ sides) (top bottom : Bool) {m : MeshVal α}
+/-- `primitives.Cylinder{Sides, NoTop, NoBottom}.ToMesh()` for `Sides ≥ 3`, all four cap choices
+    (with a cap and fewer sides the cap's `Circle` rejects) -/
+theorem cylinder_wf {sides : Nat} (hs : 3 ≤ sides) (top bottom : Bool) {m : MeshVal α}
     (h : IsPrim m (cylinderVerts sides top bottom) (cylinderTris sides top bottom)) : WF m :=
-  prim_wf h (cylinderTris_lt hs top bottom) (cylinderTris_len sides top bottom)
+  prim_wf h (cylinderTris_lt (by omega) top bottom) (cylinderTris_len sides top bottom)
+
+/-- a cylinder without caps is accepted for every `Sides` (even 0: two vertices, no triangle) -/
+theorem cylinder_nocaps_wf (sides : Nat) {m : MeshVal α}
+    (h : IsPrim m (cylinderVerts sides false false) (cylinderTris sides false false)) : WF m :=
+  prim_wf h (cylinderTris_nocaps_lt sides) (cylinderTris_len sides false false)
 
 example : IsPrim (⟨.triangle, cylinderTris 3 true false, [], [(⟨3, "Position"⟩, List.replicate 12 ())]⟩ : MeshVal Unit)
     (cylinderVerts 3 true false) (cylinderTris 3 true false) :=
@@ -98,9 +104,93 @@ theorem setIndices_wf {m : MeshVal α} (h : WF m) (idx : List Nat)
 
 /-- a concrete well-formed mesh with shared and unreferenced vertices used by the non-vacuity examples -/
 def sample : MeshVal Nat :=
-  ⟨.triangle, [0, 2, 1, 2, 0, 3], [⟨2, 7⟩], [(⟨3, "Position"⟩, [10, 11, 12, 13, 14]), (⟨1, "Class"⟩, [20, 21, 22, 23, 24])]⟩
+  ⟨.triangle, [0, 2, 1, 2, 0, 3], [⟨1, 7⟩, ⟨1, 8⟩], [(⟨3, "Position"⟩, [10, 11, 12, 13, 14]), (⟨1, "Class"⟩, [20, 21, 22, 23, 24])]⟩
+
+def cloud : MeshVal Nat :=
+  ⟨.point, [3, 0, 0, 2], [], [(⟨3, "Position"⟩, [10, 11, 12, 13, 14]), (⟨1, "Class"⟩, [20, 21, 22, 23, 24])]⟩
 
 example : WF sample := by decide
+example : WF cloud := by decide
 example : ∃ m', sample.flip = some m' := ⟨_, rfl⟩
+
+/-- `Append` of two well-formed meshes (it rejects different topologies) -/
+theorem append_wf {zero : Nat → α} {a b m : MeshVal α} (ha : WF a) (hb : WF b)
+    (h : append zero a b = some m) : WF m := MeshVal.append_wf ha hb h
+
+example : ∃ m, append (fun _ => 0) sample sample.unweld = some m ∧ m.attrLen = 11 := ⟨_, rfl, by decide⟩
+
+/-- `SetFloatNAttribute(attr, data)` with `len(data)` = the common attribute length (or on a mesh
+    without attributes). Covers the delete-when-empty branch. -/
+theorem setAttr_wf {m : MeshVal α} (h : WF m) (k : AttrKey) (data : List α)
+    (hd : data.length = m.attrLen ∨ m.attrs = []) : WF (m.setAttr k data) := MeshVal.setAttr_wf h k data hd
+
+/-- every transform that rewrites one attribute array by a length-preserving function:
+    `ModifyFloatNAttribute`, `Translate`, `Scale`, `Rotate`, `ApplyTRS`, meshops `TranslateAttribute3D`,
+    `ScaleAttribute3D/2D`, `ScaleAttributeAlongNormal`, `RotateAttribute3D`, `CenterFloat3Attribute`,
+    `NormalizeAttribute3D/2D`, `LaplacianSmooth`; `none` = the attribute is missing (rejected). -/
+theorem modifyAttr_wf {m m' : MeshVal α} (h : WF m) {k : AttrKey} {f : List α → List α}
+    (hf : ∀ d, (f d).length = d.length) (hm : m.modifyAttr k f = some m') : WF m' :=
+  MeshVal.modifyAttr_wf h hf hm
+
+theorem mapAttr_wf {m m' : MeshVal α} (h : WF m) {k : AttrKey} {φ : α → α}
+    (hm : m.mapAttr k φ = some m') : WF m' := MeshVal.mapAttr_wf h hm
+
+example : ∃ m', sample.mapAttr ⟨3, "Position"⟩ (· + 1) = some m' := ⟨_, rfl⟩
+
+/-- `SmoothNormals` / `FlatNormals`: a Normal array with one entry per position is set (a new key or
+    a replaced one). -/
+theorem setNormals_wf {m : MeshVal α} (h : WF m) {pos : List α} (hp : m.attr? ⟨3, "Position"⟩ = some pos)
+    (normals : List α) (hn : normals.length = pos.length) : WF (m.setAttr ⟨3, "Normal"⟩ normals) :=
+  MeshVal.setAttr_wf h _ _ (Or.inl (by rw [hn]; exact h.1 _ (Attrs.find?_mem hp)))
+
+/-- `FilterFloat1..4`: a point cloud is filtered to a well-formed point cloud; every other topology
+    and a missing attribute are rejected. -/
+theorem filterAttr_wf {m m' : MeshVal α} (h : WF m) {k : AttrKey} {p : α → Bool}
+    (hm : m.filterAttr k p = some m') : WF m' := MeshVal.filterAttr_wf h hm
+
+theorem filterAttr_rejects_non_point (m : MeshVal α) (k : AttrKey) (p : α → Bool) (h : m.topology ≠ .point) :
+    m.filterAttr k p = none := by unfold filterAttr; simp [h]
+
+example : ∃ m', cloud.filterAttr ⟨1, "Class"⟩ (· < 23) = some m' ∧ m'.indices = [0, 0, 1] := ⟨_, rfl, by decide⟩
+
+/-- The defect repaired by /repo commit fc6738f, as a theorem about the pre-fix behaviour: without the
+    point-topology requirement the filter returns a triangle mesh with 5 indices. -/
+theorem filterAttrOld_breaks_triangles :
+    ∃ (m m' : MeshVal Nat), WF m ∧ m.filterAttrOld ⟨3, "Position"⟩ (· < 13) = some m' ∧ ¬ WF m' :=
+  ⟨⟨.triangle, [0, 1, 2, 2, 1, 3], [], [(⟨3, "Position"⟩, [10, 11, 12, 13])]⟩, _, by decide, rfl, by decide⟩
+
+/-- `CropFloat3Attribute` (point clouds only; whatever the incoming indices are) -/
+theorem crop_wf {m m' : MeshVal α} (h : WF m) {k : AttrKey} {inside : α → Bool}
+    (hm : m.crop k inside = some m') : WF m' := MeshVal.crop_wf h hm
+
+example : ∃ m', cloud.crop ⟨3, "Position"⟩ (· > 11) = some m' ∧ m'.indices = [0, 1, 2] := ⟨_, rfl, by decide⟩
+
+/-- `RemoveNullFaces3D` for every keep-predicate on triangles -/
+theorem removeNullFaces_wf {m m' : MeshVal α} (h : WF m) {k : AttrKey} {keep : Nat → Nat → Nat → Bool}
+    (hm : m.removeNullFaces k keep = some m') : WF m' := MeshVal.removeNullFaces_wf h hm
+
+example : ∃ m', sample.removeNullFaces ⟨3, "Position"⟩ (fun a _ _ => a == 0) = some m' ∧ m'.attrLen = 3 :=
+  ⟨_, rfl, by decide⟩
+
+/-- `SplitOnUniqueMaterials`: every part is well-formed (`none` = the material ranges run out
+    before the triangles do, where the Go loop panics, or the mesh is not a triangle mesh). -/
+theorem splitOnMaterials_wf {m : MeshVal α} {parts : List (MeshVal α)} (h : WF m)
+    (hs : m.splitOnMaterials = some parts) : ∀ p ∈ parts, WF p := MeshVal.splitOnMaterials_wf h hs
+
+example : ∃ ps, sample.splitOnMaterials = some ps ∧ ps.length = 2 := ⟨_, rfl, by decide⟩
+
+/-- `WeldByFloat3Attribute` for every key function (the Go code uses `Vector3ToInt(·, decimals)`) -/
+theorem weld_wf {K : Type} [DecidableEq K] {m m' : MeshVal α} (h : WF m) {k : AttrKey} {key : α → K}
+    (hw : m.weld k key = some m') : WF m' := MeshVal.weld_wf h hw
+
+example : ∃ m', sample.weld ⟨3, "Position"⟩ (· % 3) = some m' ∧ m'.attrLen = 3 ∧ m'.indices = [0, 2, 1] :=
+  ⟨_, rfl, by decide⟩
+
+/-- `repeat.Mesh(mesh, transforms)` for every list of transforms -/
+theorem repeatMesh_wf {zero : Nat → α} {pos : AttrKey} {m r : MeshVal α} (h : WF m)
+    (ts : List (α → α)) (hr : repeatMesh zero pos m ts = some r) : WF r := MeshVal.repeatMesh_wf h ts hr
+
+example : ∃ r, repeatMesh (fun _ => 0) ⟨3, "Position"⟩ sample [(· + 1), (· + 2), id] = some r ∧ r.attrLen = 15 :=
+  ⟨_, rfl, by decide⟩
 
 end PolyVerif.C02
